@@ -2,22 +2,25 @@
 import json, os
 import vlib
 
-THEOREMS = ["Slock.C18.C18_wills_once_partial", "Slock.C18.C18_no_will_without_close", "Slock.C18.C18_close_idempotent",
-            "Slock.C18.C18_registered_spec", "Slock.C18.C18_text_wills_never_run", "Slock.C18.C18_wills_once_text_violated",
-            "Slock.C18.C18_wills_once_crash_violated", "Slock.C18.C18_routing_partial", "Slock.C18.C18_routing_will_replies",
-            "Slock.C18.C18_routing_anonymous_violated", "Slock.C18.C18_routing_stale_id_violated", "Slock.C18.C18_holds_survive",
-            "Slock.C18.C18_no_leak", "Slock.C18.C18_pending_answerable"]
+THEOREMS = ["Slock.C18.C18_server_survives", "Slock.C18.C18_wills_once", "Slock.C18.C18_no_will_without_close",
+            "Slock.C18.C18_wills_run_at_close", "Slock.C18.C18_close_idempotent", "Slock.C18.C18_registered_spec",
+            "Slock.C18.C18_routing", "Slock.C18.C18_routing_anonymous_dropped", "Slock.C18.C18_routing_will_replies",
+            "Slock.C18.C18_routing_follows_adoption", "Slock.C18.C18_holds_survive", "Slock.C18.C18_no_leak",
+            "Slock.C18.C18_pending_answerable"]
 FINISH = {"level": "proof", "assumptions": [
     "M-CONN is hand-written; it is tied to server/protocol.go + server/slock.go + server/server.go by the E-io differential run: real "
     "BinaryServerProtocol / TextServerProtocol objects on net.Pipe, served like server.handle (Process() until it returns, then Close()), "
     "on a real SLock + LockDB with the virtual clock; every event's outcome (INIT type, where each reply frame went, which wills ran) is compared",
+    "the model mirrors /repo after the repairs a1e474f (Close unregisters before the will drain), 66bd35e (text wills executed), 5edcdb1 "
+    "(all-zero proxy id never looked up); the monitors C18:close-stack-overflow / C18:will-not-executed-text / C18:reply-to-unrelated-connection "
+    "and the child-process execution of INIT+will lifetimes stay in place, so a regression is reported again",
     "the lock engine is abstract in the model: which tokens the engine answers and when (`d tok`), and whether a will is answered inside the "
     "submitting call (`imm`), are read off the real engine (key snapshots) by the harness and fed to the model",
     "granularity: one event = one complete server reaction (command processed / sweep finished / Close() returned); Close() racing with a "
     "concurrent sweep on another goroutine is not modelled; checkServerProtocolSession's pruning of proxys beyond 4 (120 s wall timer) is not modelled",
     "net.Pipe stands for TCP: a write to a pipe whose peer is gone fails at once (a TCP write may succeed once more before the reset is seen)",
-    "wills_once and routing are proved in their _partial forms (binary connections, server alive; 'announced at some point'); the full "
-    "statements are refuted by concrete lifetimes (…_violated) that the harness reproduces on the real code",
+    "routing: 'announced the same client id' is 'at some point' (C18_routing_follows_adoption shows a connection that re-announced another id "
+    "keeps the proxies it adopted); the all-zero client id counts as 'no id'",
     "engine-level no-leak (key records, LockedCount, WaitCount, protocol sessions, client registrations back at the baseline after drain + 18 s) "
     "is checked by the monitor on the real code, not proved"]}
 
